@@ -4,77 +4,174 @@ import (
 	"fmt"
 	"os"
 	"path/filepath"
+	"pgregory.net/rapid"
+	"regexp"
 	"sort"
 	"strings"
 	"testing"
-
-	"github.com/tucats/ego/internal/cli/ui"
-	"github.com/tucats/ego/internal/cli/settings"
-	"github.com/tucats/ego/internal/defs"
-	"github.com/tucats/ego/internal/errors"
-	"github.com/tucats/ego/internal/language/compiler"
-	"github.com/tucats/ego/internal/language/symbols"
-	"github.com/tucats/ego/internal/language/tokenizer"
-	"github.com/tucats/ego/verif/egorun"
+	"time"
 )
 
-func compileX(src string, mode string) (msg string) {
-	egorun.Init()
-	cfg := egorun.Config{Types: "dynamic", Extensions: true}
-	egorun.Apply(cfg)
-	defer func() {
-		if p := recover(); p != nil {
-			msg = fmt.Sprint("PANIC ", p)
-		}
-	}()
-	ui.Active(ui.TraceLogger, false)
-	st := egorun.NewSymbols(cfg)
-	var comp *compiler.Compiler
-	text := src
-	switch mode {
-	case "run":
-		comp = compiler.New("run").SetNormalization(settings.GetBool(defs.CaseNormalizedSetting)).SetExitEnabled(false).SetRoot(&symbols.RootSymbolTable).SetInteractive(false)
-		comp.Fragment(true)
-	case "test":
-		comp = compiler.New("t.ego").SetTestMode(true)
-		comp.SetInteractive(true)
-	case "service":
-		comp = compiler.New("service x").SetExtensionsEnabled(true).SetRoot(st)
-		text += "\n@handler handler"
-		comp.UsageOptional("req")
-	}
-	_ = comp.AutoImport(true, st)
-	if mode == "test" {
-		for _, p := range compiler.GetAutoImportedPackages() {
-			comp.DefineGlobalSymbol(p)
-		}
-	}
-	t := tokenizer.New(text, true)
-	_, err := comp.Compile("x", t)
-	if !errors.Nil(err) {
-		return err.Error()
-	}
-	return ""
-}
-
-func TestExplore(t *testing.T) {
-	var files []string
-	for _, d := range []string{"tests", "lib", "examples"} {
-		filepath.Walk(filepath.Join("/repo", d), func(p string, info os.FileInfo, err error) error {
-			if err == nil && !info.IsDir() && strings.HasSuffix(p, ".ego") {
-				files = append(files, p)
-			}
-			return nil
-		})
-	}
+// TestProbe runs every /tmp/c05scratch/p/*.ego: original, formatted.
+func TestProbe(t *testing.T) {
+	files, _ := filepath.Glob(os.Getenv("C05_PROBE"))
 	sort.Strings(files)
 	for _, f := range files {
 		b, _ := os.ReadFile(f)
-		r := compileX(string(b), "run")
-		ts := compileX(string(b), "test")
-		sv := compileX(string(b), "service")
-		if r != "" {
-			fmt.Printf("%s\n   run: %.100s\n   test: %.100s\n   svc: %.100s\n", f, r, ts, sv)
+		src := string(b)
+		kind, mode := "program", "run"
+		if strings.Contains(filepath.Base(f), "frag") {
+			kind, mode = "fragment", "test"
+		}
+		r0 := execEgo(src, mode, true, 20*time.Second)
+		fmt.Printf("=== %s\n--- original: %s\n", f, outcomeOf(r0))
+		f1, err := fmtSrc(src, kind)
+		if err != nil {
+			fmt.Println("--- FORMAT ERROR:", err)
+			continue
+		}
+		if os.Getenv("C05_SHOW") != "" {
+			fmt.Println("--- formatted text:\n" + f1)
+		}
+		r1 := execEgo(f1, mode, true, 20*time.Second)
+		if outcomeOf(r0) != outcomeOf(r1) {
+			fmt.Printf("--- formatted DIFFERS: %s\n", outcomeOf(r1))
+		} else {
+			fmt.Println("--- formatted: same")
+		}
+		f2, err := fmtSrc(f1, kind)
+		if err != nil || f2 != f1 {
+			fmt.Println("--- NOT IDEMPOTENT", err, "\n"+diffLines(f1, f2))
+		}
+		if m := missingComments(commentsOf(src), commentsOf(f1)); len(m) > 0 {
+			fmt.Println("--- COMMENTS LOST", m)
+		}
+		o := oracle(Case{Kind: kind, Src: src})
+		if o.Fail != nil {
+			fmt.Println("--- ORACLE FAIL sig:", o.Fail.Sig)
+		} else {
+			fmt.Println("--- oracle: held", o.Skip, o.Inconclusive)
 		}
 	}
+}
+
+func TestSample(t *testing.T) {
+	n := 300
+	fmt.Sscan(os.Getenv("C05_N"), &n)
+	hist := map[string]int{}
+	examples := map[string]string{}
+	i := 0
+	start := time.Now()
+	rapid.Check(t, func(rt *rapid.T) {
+		c := genCase(rt)
+		i++
+		if os.Getenv("C05_DUMP") != "" && i <= 3 {
+			fmt.Println("-----", c.Kind, "\n"+c.Src)
+		}
+		o := oracle(c)
+		key := "held"
+		switch {
+		case o.Skip != "":
+			key = "SKIP " + o.Skip
+			r := execEgo(c.Src, map[string]string{"program": "run", "fragment": "test"}[c.Kind], false, 0)
+			key += " :: " + normMsg(r.CompileErr)
+		case o.Fail != nil:
+			key = "FAIL " + o.Fail.Sig
+		case o.Inconclusive != "":
+			key = "INCONCLUSIVE " + o.Inconclusive
+		}
+		hist[key]++
+		if _, ok := examples[key]; !ok || len(c.Src) < len(examples[key]) {
+			examples[key] = c.Src
+			if o.Fail != nil {
+				examples[key] += "\n>>> " + clipS(o.Fail.Observed, 1500)
+			}
+		}
+	})
+	fmt.Println("elapsed", time.Since(start), "cases", i)
+	var keys []string
+	for k := range hist {
+		keys = append(keys, k)
+	}
+	sort.Strings(keys)
+	for _, k := range keys {
+		fmt.Printf("%5d %s\n", hist[k], k)
+	}
+	if d := os.Getenv("C05_EX"); d != "" {
+		_ = os.MkdirAll(d, 0o755)
+		n := 0
+		for _, k := range keys {
+			if k != "held" {
+				n++
+				src := examples[k]
+				if i := strings.Index(src, "\n>>> "); i >= 0 {
+					src = src[:i+1]
+				}
+				name := fmt.Sprintf("%s/e%02d.ego", d, n)
+				if strings.Contains(k, "fragment") || !strings.Contains(src, "package main") {
+					name = fmt.Sprintf("%s/e%02d-frag.ego", d, n)
+				}
+				_ = os.WriteFile(name, []byte(src), 0o644)
+				fmt.Printf("   %s: %s\n", name, k)
+			}
+		}
+	}
+}
+
+// minimise removes lines (then chunks) while pred stays true.
+func minimise(src string, pred func(string) bool) string {
+	lines := strings.Split(src, "\n")
+	for chunk := len(lines) / 2; chunk >= 1; chunk /= 2 {
+		for i := 0; i+chunk <= len(lines); {
+			cand := append(append([]string{}, lines[:i]...), lines[i+chunk:]...)
+			if pred(strings.Join(cand, "\n")) {
+				lines = cand
+			} else {
+				i += chunk
+			}
+		}
+	}
+	return strings.Join(lines, "\n")
+}
+
+func TestMinSkip(t *testing.T) {
+	hist := map[string][]string{}
+	re := regexp.MustCompile(`line (\d+)`)
+	n := 0
+	rapid.Check(t, func(rt *rapid.T) {
+		c := genCase(rt)
+		n++
+		mode := map[string]string{"program": "run", "fragment": "test"}[c.Kind]
+		r := execEgo(c.Src, mode, false, 0)
+		if r.CompileErr == "" {
+			return
+		}
+		key := normMsg(r.CompileErr)
+		ctx := ""
+		if m := re.FindStringSubmatch(r.CompileErr); m != nil {
+			var l int
+			fmt.Sscan(m[1], &l)
+			lines := strings.Split(c.Src, "\n")
+			for i := l - 3; i <= l; i++ {
+				if i >= 0 && i < len(lines) {
+					ctx += fmt.Sprintf("   %4d| %s\n", i+1, lines[i])
+				}
+			}
+		}
+		if ctx == "" {
+			ctx = c.Src
+		}
+		hist[key] = append(hist[key], ctx)
+	})
+	tot := 0
+	for k, v := range hist {
+		tot += len(v)
+		fmt.Printf("######## %d x %s\n", len(v), k)
+		for i, x := range v {
+			if i < 1 {
+				fmt.Println(x)
+			}
+		}
+	}
+	fmt.Println("skips", tot, "of", n)
 }
